@@ -1,4 +1,5 @@
 import ScrutModel.Lemmas.UpdateRetok
+import ScrutModel.Lemmas.UpdateRunWitness
 /-!
 # C10 — `update` rewrites only scrut blocks, keeps everything else, and is idempotent
 
@@ -65,7 +66,65 @@ terminator, a final line without terminator gets one).
 
 Not proved (oracle only): that the real parser, fed these code lines, yields the same shell
 expressions as the original document (re-parse oracle of the well-formed stream; for the generated
-texts that is C09's round trip).
+texts that is C09's round trip).  [Now proved for the integrated model, see below, provided the
+written document parses.]
+
+## The integrated model of `scrut update --replace --assume-yes` (`Model/UpdateRun.lean`)
+
+`UpdateRun.updateDocument isOther content runs` composes read → parse → prepare → execute → validate
+→ `generate_testcase` → `generate_update` → compare / write and is tied to the real BINARY by the
+stream `e2e-upddoc`.  The theorems `C10_run_*` are the theorems above lifted through that
+composition (proofs: `Lemmas/UpdateRunProps.lean`, `UpdateRunAlign.lean`, `UpdateRunRejudge.lean`,
+`UpdateRunReparse.lean`, concrete documents: `UpdateRunWitness.lean`), for all documents and all
+runs:
+
+* `C10_run_bytes` – `updateDocumentBytes` is `updateDocument` behind `read_file`; every theorem
+  below is a theorem about the bytes of the file through it;
+* `C10_run_unfolded` – the text written is `generate_update` of the document with the texts that
+  `generate_testcase` returned for the judged tests (`docGens`): one per test, none failing, each
+  `GenOK` (proved, not assumed: `$ …` first, LF last) – so every theorem about `generateUpdate`
+  above applies to the integrated function with its guards `LangOK` / `GenOK` discharged;
+* **passing documents** – the statement
+
+      theorem C10_run_passing_untouched : AllPass content runs → ∃ rs, updateDocument isOther content runs = .unchanged rs
+
+  is **false** (`C10_run_passing_untouched_fails_on_witness`: a passing document whose last line has
+  no line feed is written; finding `C10:passing-document-rewritten`, confirmed on the binary): a
+  passing test is re-rendered (command, expectation lines as written, `[code]`), the rest of the
+  document is normalised by `generate_update`.  `C10_run_passing_rerendered` is what is true
+  without guard (the text written depends on the document only, not on the outputs),
+  `C10_run_passing_untouched_partial` the statement under the decidable guard `Settled` (the
+  document is its own re-rendering; `C10_run_idempotent_partial` says that the documents `update`
+  writes are of that kind).  The re-rendering can even CHANGE THE COMMAND of a passing test:
+  `C10_run_passing_corrupts_command_witness` (finding `C10:expectation-read-as-continuation`,
+  confirmed on the binary: `$ x` / `[1]` / `> a` passes and is rewritten to `$ x` / `> a` / `[1]`,
+  whose command is `x⏎a`);
+* `C10_run_outside_preserved`, `C10_run_outside_preserved_partial`, `C10_run_same_tokens` – lines
+  outside scrut blocks, number and order of blocks, language / configuration / comment lines
+  (`Rewritten`, `BlockOut`, `Reread` as above);
+* **same commands, at the level of the parser** – the statement
+
+      theorem C10_run_same_commands : updateDocument … = .updated text rs → parse content = .ok p → parse text = .ok p' →
+          p'.tests.map (·.shellExpression) = p.tests.map (·.shellExpression)
+
+  is **false**: `C10_run_same_commands_fails_on_witness` (finding
+  `C10:trailing-empty-continuation-dropped`, confirmed on the binary: `$ x` / `> ` is the command
+  `x⏎` and is written back as `$ x`) and the witness of the previous item.
+  `C10_run_same_commands_partial` proves it under the decidable guards `CmdClosed` (no command ends
+  in an empty continuation line), `NoContLike` (no expectation line starts with `> `), `NoStrayCR`,
+  `FrontClosed`, for any `isOther` with `AsciiContract` (C11), IF the written document parses;
+* **idempotence** – `C10_run_idempotent_same_texts_partial`: the second update writes nothing if
+  it generates the same texts; `C10_run_idempotent_partial`: it does so – hence
+  `update (update doc) = unchanged` – under the guards above, exit codes 0..255, `QuantFree` (a test
+  with `MalformedOutput` has no quantified expectation: the open finding
+  `C10:not-idempotent-retained-quantified-expectations`) and ONE hypothesis that is not discharged,
+  `SameConfigs`: the written document is read (it parses, its lines compile) with the same test
+  configurations.  Missing for it: the tokens' `Reread` only says that the configuration is WRITTEN
+  the same way again (`configSuffix cfg' = configSuffix cfg`), not that the text between the braces
+  read back is the original one without its leading white space, and no lemma says that
+  `Yaml.parseFlow` ignores leading white space.  Everything else of the round trip through the
+  document parser is proved (`UpdateRun.reparse_block`: command, expectation lines, exit code of the
+  block read back; C09's `C09_run_rewritten_passes`: the test read back passes on the same run).
 -/
 namespace Scrut.Props.C10
 open Scrut Scrut.Markdown Scrut.Update
@@ -251,5 +310,192 @@ example : ∀ lang, scrut.contains lang = true → LangOK lang := by
   intro c hc
   simp only [List.mem_cons, List.not_mem_nil, or_false] at hc
   rcases hc with rfl | rfl | rfl | rfl | rfl <;> decide
+
+/-! ## the integrated model of `scrut update` (`Model/UpdateRun.lean`) -/
+
+section Integrated
+open Scrut.UpdateRun Scrut.UpdateRun.Witness
+open Scrut.EscLemmas (AsciiContract)
+
+/-- `updateDocumentBytes` is `updateDocument` on what `read_file` returns. -/
+theorem C10_run_bytes (isOther : Char → Bool) (bytes : List UInt8) (runs : List TestRun.Ran) (content : List Char)
+    (hread : TestRun.readFile bytes = .ok content) :
+    updateDocumentBytes isOther bytes runs = updateDocument isOther content runs :=
+  updateDocumentBytes_of_read isOther bytes runs content hread
+
+/-- The file is overwritten with `generate_update` of the document and the texts of the judged
+tests: one text per test, none missing, each `GenOK`; the text differs from the document. -/
+theorem C10_run_unfolded (isOther : Char → Bool) (content : List Char) (runs : List TestRun.Ran)
+    (text : List Char) (results : List Gen.UpdResult)
+    (h : updateDocument isOther content runs = .updated text results) :
+    ∃ gens, docGens isOther content runs = some gens ∧ gens ≠ [] ∧ gens.length = results.length ∧
+      (∀ (k : Nat) (x : Option (List Char)), gens[k]? = some x → ∃ g, x = some g ∧ GenOK g) ∧
+      generateUpdate [Gen.language] content gens = .ok text ∧ text ≠ content :=
+  updateDocument_updated h
+
+/-! ### U1: passing documents
+
+FALSE as first stated (the full-strength statement is kept here):
+
+    theorem C10_run_passing_untouched (isOther) (content) (runs) (hp : AllPass content runs) :
+        ∃ rs, updateDocument isOther content runs = .unchanged rs
+-/
+
+/-- DEVIATION (finding `C10:passing-document-rewritten`): the only test of the document passes,
+and the file is written: its last line gains a line feed. -/
+theorem C10_run_passing_untouched_fails_on_witness :
+    AllPass docNoLf [runA] ∧
+    ∀ isOther, updateDocument isOther docNoLf [runA] = .updated (docNoLf ++ ['\n']) [.ok] :=
+  ⟨allPass_noLf, noLf_written⟩
+
+/-- DEVIATION (finding `C10:expectation-read-as-continuation`): a passing test `$ x` / `[1]` / `> a`
+is rewritten to `$ x` / `> a` / `[1]`: the document is LF-terminated, holds no carriage return and
+no front-matter, and the written document parses to ANOTHER command (`x⏎a`). -/
+theorem C10_run_passing_corrupts_command_witness :
+    AllPass docCont [runCont] ∧
+    (∀ isOther, updateDocument isOther docCont [runCont] = .updated docContOut [.ok]) ∧
+    (parseMarkdown TestRun.parseEnv docCont).toOption.map (fun p => p.tests.map (·.command)) = some [[['x']]] ∧
+    (parseMarkdown TestRun.parseEnv docContOut).toOption.map (fun p => p.tests.map (·.command)) = some [[['x'], ['a']]] :=
+  ⟨allPass_cont, cont_written, cont_commands.1, cont_commands.2⟩
+
+/-- What is true of every passing document: if it is written at all, the text written is the
+re-rendering of the document from its own lines (`passText`: command, expectation lines as written,
+exit code) – it does not depend on the outputs –, and every result is `Ok`. -/
+theorem C10_run_passing_rerendered (isOther : Char → Bool) (content : List Char) (runs : List TestRun.Ran)
+    (hp : AllPass content runs) (text : List Char) (results : List Gen.UpdResult)
+    (h : updateDocument isOther content runs = .updated text results) :
+    ∃ tests, docTests content = some tests ∧
+      generateUpdate [Gen.language] content (tests.map passText) = .ok text ∧
+      results = tests.map (fun _ => .ok) :=
+  run_passing_rerendered isOther content runs hp text results h
+
+/-- **Passing documents stay untouched** – under the decidable guard `Settled`: the document is
+written the way `update` writes passing tests. -/
+theorem C10_run_passing_untouched_partial (isOther : Char → Bool) (content : List Char) (runs : List TestRun.Ran)
+    (hp : AllPass content runs) (hs : Settled content) :
+    ∃ rs, updateDocument isOther content runs = .unchanged rs :=
+  run_passing_untouched isOther content runs hp hs
+
+/-- … and the same about the bytes of the file. -/
+theorem C10_run_passing_untouched_bytes_partial (isOther : Char → Bool) (bytes : List UInt8) (content : List Char)
+    (runs : List TestRun.Ran) (hread : TestRun.readFile bytes = .ok content)
+    (hp : AllPass content runs) (hs : Settled content) :
+    ∃ rs, updateDocumentBytes isOther bytes runs = .unchanged rs := by
+  rw [updateDocumentBytes_of_read isOther bytes runs content hread]
+  exact run_passing_untouched isOther content runs hp hs
+
+/-- the guards hold for the witness document with its final line feed; they fail without it -/
+example : AllPass docLf [runA] ∧ Settled docLf ∧ ¬ Settled docNoLf := ⟨allPass_lf, settled_lf, noLf_not_settled⟩
+example (isOther : Char → Bool) : ∃ rs, updateDocument isOther docLf [runA] = .unchanged rs :=
+  C10_run_passing_untouched_partial isOther docLf [runA] allPass_lf settled_lf
+
+/-! ### U2: lines outside scrut blocks, block structure -/
+
+/-- Everything outside scrut blocks is written back line by line, in order; every scrut block is
+replaced by one block (`Rewritten`, with the texts `docGens` of the judged tests). -/
+theorem C10_run_outside_preserved (isOther : Char → Bool) (content : List Char) (runs : List TestRun.Ran)
+    (text : List Char) (results : List Gen.UpdResult)
+    (h : updateDocument isOther content runs = .updated text results) :
+    ∃ gens, docGens isOther content runs = some gens ∧
+      Rewritten [Gen.language] gens false 0 (splitLines content) text :=
+  run_outside_preserved h
+
+/-- The strict reading for documents whose front-matter is closed. -/
+theorem C10_run_outside_preserved_partial (isOther : Char → Bool) (content : List Char) (runs : List TestRun.Ran)
+    (text : List Char) (results : List Gen.UpdResult)
+    (h : updateDocument isOther content runs = .updated text results) (hf : FrontClosed content) :
+    ∃ gens, docGens isOther content runs = some gens ∧
+      Rewritten [Gen.language] gens true 0 (splitLines content) text :=
+  run_outside_preserved_strict h hf
+
+/-- The written document is tokenized into the same tokens in the same order (number and order of
+blocks, language, configuration as written, comment lines); the code lines of a rewritten block are
+the lines of the text of its outcome.  The guards `LangOK` and `GenOK` of `C10_same_commands` are
+discharged. -/
+theorem C10_run_same_tokens (isOther : Char → Bool) (content : List Char) (runs : List TestRun.Ran)
+    (text : List Char) (results : List Gen.UpdResult)
+    (h : updateDocument isOther content runs = .updated text results)
+    (hcr : NoStrayCR content) (hf : FrontClosed content) :
+    ∃ gens, docGens isOther content runs = some gens ∧ Reread gens 0 (docToks content) (docToks text) :=
+  run_reread h hcr hf
+
+/-! ### U3: same commands
+
+FALSE as first stated (the full-strength statement is kept here):
+
+    theorem C10_run_same_commands … (h : updateDocument isOther content runs = .updated text results)
+        (hp : parseMarkdown parseEnv content = .ok p) (hp' : parseMarkdown parseEnv text = .ok p') :
+        p'.tests.map (·.shellExpression) = p.tests.map (·.shellExpression)
+-/
+
+/-- DEVIATION (finding `C10:trailing-empty-continuation-dropped`): `$ x` / `> ` (the command `x⏎`)
+is written back as `$ x` (the command `x`). -/
+theorem C10_run_same_commands_fails_on_witness :
+    updateDocument ctrl docTrail [runA] = .updated docTrailOut [.malformed [.unmatched 0, .unexpected [0]]] ∧
+    (parseMarkdown TestRun.parseEnv docTrail).toOption.map (fun p => p.tests.map (·.shellExpression)) = some [['x', '\n']] ∧
+    (parseMarkdown TestRun.parseEnv docTrailOut).toOption.map (fun p => p.tests.map (·.shellExpression)) = some [['x']] :=
+  ⟨trail_written, trail_commands.1, trail_commands.2⟩
+
+/-- **Same commands, at the level of the parser**: if the written document parses, it parses to
+the same command lines (hence the same shell expressions), test by test – for documents without
+stray carriage return and with closed front-matter, no command ending in an empty continuation
+line, no expectation line starting with `> `. -/
+theorem C10_run_same_commands_partial (isOther : Char → Bool) (hC : AsciiContract isOther) (content : List Char)
+    (runs : List TestRun.Ran) (text : List Char) (results : List Gen.UpdResult)
+    (h : updateDocument isOther content runs = .updated text results)
+    (hcr : NoStrayCR content) (hf : FrontClosed content) (p p' : Parsed)
+    (hp : parseMarkdown TestRun.parseEnv content = .ok p) (hp' : parseMarkdown TestRun.parseEnv text = .ok p')
+    (hcmd : ∀ t ∈ p.tests, CmdClosed t) (hnc : ∀ t ∈ p.tests, NoContLike t) :
+    p'.tests.map (·.command) = p.tests.map (·.command) :=
+  run_same_commands_parsed hC h hcr hf hp hp' hcmd hnc
+
+/-- the guards hold for an ordinary document (title, blank line, one block, text behind it), whose
+written form parses -/
+example : updateDocument ctrl docOrd [runNew] = .updated docOrdOut [.malformed [.unmatched 0, .unexpected [0]]] ∧
+    AsciiContract ctrl ∧ NoStrayCR docOrd ∧ FrontClosed docOrd ∧
+    parseMarkdown TestRun.parseEnv docOrd = .ok parsedOrd ∧
+    (∀ t ∈ parsedOrd.tests, CmdClosed t) ∧ (∀ t ∈ parsedOrd.tests, NoContLike t) ∧
+    (parseMarkdown TestRun.parseEnv docOrdOut).toOption.isSome = true :=
+  ⟨ord_written, ctrl_contract, ord_noStrayCR, ord_frontClosed, parse_ord, ord_cmdClosed, ord_noContLike, by decide⟩
+
+/-! ### U4: idempotence of the composition
+
+The full-strength statement (no guard) is false where the open findings
+`C10:not-idempotent-stray-carriage-return`, `C10:not-idempotent-retained-quantified-expectations` and
+the witnesses above (`C10:expectation-read-as-continuation`) say so. -/
+
+/-- The second update writes nothing, provided it generates the same texts as the first
+(`C10_idempotent` through the composition; the count of tests is proved to be the same). -/
+theorem C10_run_idempotent_same_texts_partial (isOther : Char → Bool) (content : List Char)
+    (runs : List TestRun.Ran) (text : List Char) (results : List Gen.UpdResult)
+    (h : updateDocument isOther content runs = .updated text results)
+    (hcr : NoStrayCR content) (hf : FrontClosed content)
+    (hsame : docGens isOther text runs = docGens isOther content runs) :
+    ∃ rs, updateDocument isOther text runs = .unchanged rs :=
+  run_idempotent_of_same_texts h hcr hf hsame
+
+/-- the hypothesis holds for the ordinary document: the second run generates the text the first wrote -/
+example : docGens ctrl docOrdOut [runNew] = docGens ctrl docOrd [runNew] := ord_sameTexts
+
+/-- **Idempotence**: updating the updated document with the same runs writes nothing – under the
+decidable guards named in the header and the one undischarged hypothesis `SameConfigs` (the written
+document is read with the same test configurations). -/
+theorem C10_run_idempotent_partial (isOther : Char → Bool) (hC : AsciiContract isOther) (content : List Char)
+    (runs : List TestRun.Ran) (text : List Char) (results : List Gen.UpdResult)
+    (h : updateDocument isOther content runs = .updated text results)
+    (hcr : NoStrayCR content) (hf : FrontClosed content) (p : Parsed)
+    (hp : parseMarkdown TestRun.parseEnv content = .ok p)
+    (hcmd : ∀ t ∈ p.tests, CmdClosed t) (hnc : ∀ t ∈ p.tests, NoContLike t)
+    (hcodes : ∀ r ∈ runs, 0 ≤ r.code ∧ r.code ≤ 255)
+    (hq : QuantFree content results) (hsc : SameConfigs content text) :
+    ∃ rs, updateDocument isOther text runs = .unchanged rs :=
+  run_idempotent_readback hC h hcr hf hp hcmd hnc hcodes hq hsc
+
+/-- every hypothesis holds for the ordinary document, so its second update writes nothing -/
+example : ∃ rs, updateDocument ctrl docOrdOut [runNew] = .unchanged rs :=
+  C10_run_idempotent_partial ctrl ctrl_contract docOrd [runNew] docOrdOut _ ord_written ord_noStrayCR ord_frontClosed
+    parsedOrd parse_ord ord_cmdClosed ord_noContLike ord_codes ord_quantFree ord_sameConfigs
+
+end Integrated
 
 end Scrut.Props.C10
